@@ -224,7 +224,8 @@ def apply_reference(repo):
         if fi.is_lambda or q not in ref:
             continue
         ref_locals = {n for n, _ in ref[q]["locals"]} | set(ref[q]["params"])
-        n = _increment_through_temp(fi.node, ref_locals) + _ifexp_assignments(fi.node, ref_locals)
+        n = _split_tuple_assignments(fi.node, ref_locals)
+        n += _increment_through_temp(fi.node, ref_locals) + _ifexp_assignments(fi.node, ref_locals)
         n += _tail_duplicate(fi.node, ref_locals)
         if n:
             repo.restructured[q] = n
@@ -398,7 +399,7 @@ def inline_new_aliases(repo, ref):
                     continue
             if writers is None:
                 writers = _attr_writers(repo)
-            if q in writers.get("*", ()):
+            if q in writers.get("*", ()) and len(ch) > 1:
                 continue
             if any(q in writers.get(a, ()) for a in attrs):
                 # the function itself stores an attribute of the chain: harmless only when every such store is executed before
@@ -431,6 +432,8 @@ def inline_new_aliases(repo, ref):
                     elif not _stores_only_on_self(w, ch[1]):
                         keep.add(wq)
                 bad_fns = keep
+            if len(ch) == 1:
+                bad_fns = set()         # a local name cannot be rebound by anything that is called
             if calls and bad_fns:
                 if cg is None:
                     from .callgraph import CallGraph
@@ -1615,8 +1618,8 @@ def _ifexp_assignments(fnode, ref_locals):
 
 
 def _tail_duplicate(fnode, ref_locals):
-    """S; U   where every way out of the compound statement S ends with `t = <side-effect free value>` (t a new local read only
-    by U, once): U moves to the ends of S with the value in place of t"""
+    """S; U   where every way out of the compound statement S ends with assignments `t1 = v1; t2 = v2; ...` of side-effect free
+    values to the same new locals, which only U reads (each once): U moves to the ends of S with the values in place"""
     n = 0
     changed = True
     while changed:
@@ -1624,31 +1627,52 @@ def _tail_duplicate(fnode, ref_locals):
         for owner, field, blk in _blocks(fnode):
             for i in range(len(blk) - 1):
                 s1, u = blk[i], blk[i + 1]
-                if not isinstance(s1, (ast.If, ast.Try)) or not isinstance(u, ast.Return):
+                if not isinstance(s1, (ast.If, ast.Try)) or not isinstance(u, (ast.Return, ast.Expr, ast.Assign)):
                     continue
                 leaves = _leaves(s1)
-                if not leaves or not all(isinstance(l[-1], ast.Assign) and len(l[-1].targets) == 1 and isinstance(l[-1].targets[0], ast.Name) for l in leaves):
+                if not leaves:
                     continue
-                names = {l[-1].targets[0].id for l in leaves}
-                if len(names) != 1:
+
+                def trailing(l):
+                    out = {}
+                    for st in reversed(l):
+                        if isinstance(st, ast.Assign) and len(st.targets) == 1 and isinstance(st.targets[0], ast.Name) and st.targets[0].id not in out \
+                                and st.targets[0].id not in ref_locals and not st.targets[0].id.startswith("_h"):
+                            out[st.targets[0].id] = st
+                        else:
+                            break
+                    return out
+                trails = [trailing(l) for l in leaves]
+                names = set(trails[0]) if trails else set()
+                for t_ in trails[1:]:
+                    names &= set(t_)
+                # only temporaries that U reads exactly once and nothing else reads
+                good = set()
+                for t in sorted(names):
+                    occ = [x for x in walk_own(fnode) if isinstance(x, ast.Name) and x.id == t]
+                    loads = [x for x in occ if isinstance(x.ctx, ast.Load)]
+                    if len(loads) == 1 and len(occ) == len(leaves) + 1 and any(x is loads[0] for x in ast.walk(u)) \
+                            and not _inside(loads[0], (ast.Lambda, ast.ListComp, ast.SetComp, ast.DictComp, ast.GeneratorExp), u) \
+                            and all(_pure_over_locals(tr[t].value, None) or _chain(tr[t].value) is not None or isinstance(tr[t].value, ast.Constant) for tr in trails):
+                        good.add(t)
+                if not good:
                     continue
-                t = names.pop()
-                if t in ref_locals or t.startswith("_h"):
+                # the temporaries must be the *last* statements of every leaf (nothing else in between them and U)
+                if not all(all(isinstance(st, ast.Assign) and st.targets[0].id in tr for st in l[len(l) - len(tr):]) for l, tr in zip(leaves, trails)):
                     continue
-                occ = [x for x in walk_own(fnode) if isinstance(x, ast.Name) and x.id == t]
-                loads = [x for x in occ if isinstance(x.ctx, ast.Load)]
-                if len(loads) != 1 or len(occ) != len(leaves) + 1 or not any(x is loads[0] for x in ast.walk(u)):
+                if isinstance(u, ast.Assign) and any(isinstance(x, ast.Name) and x.id in good and isinstance(x.ctx, ast.Store) for x in ast.walk(u)):
                     continue
-                if not all(_pure_over_locals(l[-1].value, None) or _chain(l[-1].value) is not None or isinstance(l[-1].value, ast.Constant) for l in leaves):
+                # when U does not leave the function, statements after U follow every leaf anyway: only legal when all trailing
+                # temporaries of the leaves are consumed (otherwise a leaf's other temporaries would be separated from their reader)
+                if any(set(tr) - good for tr in trails):
                     continue
-                if _inside(loads[0], (ast.Lambda, ast.ListComp, ast.SetComp, ast.DictComp, ast.GeneratorExp), u):
-                    continue
-                for l in leaves:
+                for l, tr in zip(leaves, trails):
                     rep = ast.parse(ast.unparse(u)).body[0]
+
                     class _R(ast.NodeTransformer):
-                        def visit_Name(self, node, v=l[-1].value):
-                            if node.id == t and isinstance(node.ctx, ast.Load):
-                                return ast.parse("(%s)" % ast.unparse(v), mode="eval").body
+                        def visit_Name(self, node, tr=tr):
+                            if node.id in good and isinstance(node.ctx, ast.Load):
+                                return ast.parse("(%s)" % ast.unparse(tr[node.id].value), mode="eval").body
                             return node
                     rep = _R().visit(rep)
                     ast.fix_missing_locations(rep)
@@ -1659,7 +1683,7 @@ def _tail_duplicate(fnode, ref_locals):
                         for c_ in ast.iter_child_nodes(y):
                             c_._parent = y
                     rep._parent = parent
-                    l[-1] = rep
+                    l[len(l) - len(tr):] = [rep]
                 del blk[i + 1]
                 _invalidate(owner)
                 n += 1
@@ -1835,3 +1859,37 @@ def _setattr_only_on_own(fi):
             if not (n.args and isinstance(n.args[0], ast.Name) and (n.args[0].id == recv or n.args[0].id in fresh)):
                 return False
     return True
+
+
+def _split_tuple_assignments(fnode, ref_locals):
+    """a, b = x, y   ->   a = x; b = y   when no target is read by a later element (the parallel assignment is only a spelling)"""
+    n = 0
+    for owner, field, blk in _blocks(fnode):
+        i = 0
+        while i < len(blk):
+            st = blk[i]
+            if isinstance(st, ast.Assign) and len(st.targets) == 1 and isinstance(st.targets[0], ast.Tuple) and isinstance(st.value, ast.Tuple) \
+                    and len(st.targets[0].elts) == len(st.value.elts) >= 2 and all(isinstance(t, ast.Name) for t in st.targets[0].elts) \
+                    and not any(isinstance(v, ast.Starred) for v in st.value.elts):
+                tg = [t.id for t in st.targets[0].elts]
+                ok = len(set(tg)) == len(tg)
+                for k, v in enumerate(st.value.elts):
+                    if k > 0 and any(isinstance(x, ast.Name) and x.id in tg[:k] for x in ast.walk(v)):
+                        ok = False
+                    if any(isinstance(x, (ast.Call, ast.Await, ast.Yield, ast.NamedExpr)) for x in ast.walk(v)) and k > 0 and False:
+                        ok = False
+                if ok:
+                    new = [ast.parse("%s = %s" % (t, ast.unparse(v))).body[0] for t, v in zip(tg, st.value.elts)]
+                    for s_ in new:
+                        for y in ast.walk(s_):
+                            ast.copy_location(y, st)
+                            for c_ in ast.iter_child_nodes(y):
+                                c_._parent = y
+                        s_._parent = owner
+                    blk[i:i + 1] = new
+                    _invalidate(owner)
+                    n += 1
+                    i += len(new)
+                    continue
+            i += 1
+    return n
